@@ -18,3 +18,69 @@ Print Assumptions C15_integer_classification.
 Print Assumptions C15_zero_or_missing_length_rejected.
 Print Assumptions C15_negative_length_rejected.
 Print Assumptions C15_window_beyond_data_rejected.
+
+(* ------------------------------------------------------------------------------------------------------------------------------------
+   The total classification for EVERY kind of the dtype register (DtypeLen.v): uint int uintbe intbe uintle intle float floatle bfloat
+   bfloatle bool bin hex oct bytes bits pad (the ne names alias these rows), every length argument (none, or any integer incl. 0 and
+   negative) and every value, through Dtype(name, length).build(value), the keyword route Bits(name=value, length=...) and the token
+   route bitstore_from_token. The float encoders are parameters of which only the produced length is assumed. *)
+From BS Require Import DtypeLen.
+Section C15_all_kinds.
+  Variable V : Type.
+  Variable enc : bool -> Z -> V -> bits.
+  Variable encb : bool -> V -> bits.
+  Hypothesis enc_len : forall (be : bool) (n : Z) (f : V), In n [16; 32; 64] -> zlen (enc be n f) = n.
+  Hypothesis encb_len : forall (be : bool) (f : V), zlen (encb be f) = 16.
+  (* Dtype(name, length): accepted exactly for a non-negative length allowed for the kind; a missing length becomes the single allowed one *)
+  Theorem C15_dtype_creation : forall (k : DtypeLen.kind) (length : option Z),
+    dtype_new k length = match length with
+                         | Some l => if (0 <=? l) && allowedb (kind_allowed k) l then Ok (Some (l * mult k)) else Err ValueError
+                         | None => Ok (single k)
+                         end.
+  Proof. exact dtype_new_classification. Qed.
+  (* creation succeeds iff the length is accepted (spec_len: >= 0, allowed, non-zero for the integer kinds; without a length: the value's own
+     length, no default for integers and floats) and the value fits (fitsb: integer ranges; exactly bl/w valid digits; exactly bl/8 bytes; bl
+     bits; 0/1 for bool); the result is exactly the encoding and has exactly the requested number of bits; every failure is ValueError *)
+  Theorem C15_total_classification : forall (k : DtypeLen.kind) (length : option Z) (v : vtyp V k),
+    (forall b : bits, build V enc encb k length v = Ok b <->
+       (exists bl : Z, spec_len V k length v = Some bl /\ fitsb V k bl v = true /\ b = content V enc encb k bl v /\ zlen b = bl)) /\
+    (forall e : exn, build V enc encb k length v = Err e -> e = ValueError).
+  Proof. exact (build_classification V enc encb enc_len encb_len). Qed.
+  Theorem C15_requested_length : forall (k : DtypeLen.kind) (l : Z) (v : vtyp V k) (b : bits),
+    build V enc encb k (Some l) v = Ok b -> 0 <= l /\ zlen b = l * mult k.
+  Proof. exact (build_stated_length V enc encb enc_len encb_len). Qed.
+  (* the keyword route is the same function (bytes= counts its length in bits and truncates: stated exactly), and so is the token route;
+     a token without a value is refused unless it is a pad; a stated token length that disagrees with the value is refused *)
+  Theorem C15_keyword_route : forall (k : DtypeLen.kind) (length : option Z) (v : vtyp V k), k <> DtypeLen.KBytes ->
+    create_kw V enc encb k length v = build V enc encb k length v.
+  Proof. exact (create_kw_eq_build V enc encb enc_len encb_len). Qed.
+  Theorem C15_keyword_bytes : forall (bs : vtyp V DtypeLen.KBytes) (length : option Z),
+    create_kw V enc encb DtypeLen.KBytes length bs =
+    (if forallb byte_ok bs && match length with Some l => (0 <=? l) && (l <=? 8 * zlen bs) | None => true end
+     then Ok match length with Some l => firstn (Z.to_nat l) (frombytes bs) | None => frombytes bs end
+     else Err ValueError).
+  Proof. exact (create_kw_bytes_classification V enc encb enc_len). Qed.
+  Theorem C15_token_route : forall (k : DtypeLen.kind) (length : option Z) (v : vtyp V k),
+    from_token V enc encb k length (Some v) = build V enc encb k length v.
+  Proof. exact (from_token_eq_build V enc encb). Qed.
+  Theorem C15_token_needs_value : forall (k : DtypeLen.kind) (length : option Z), k <> DtypeLen.KPad -> from_token V enc encb k length None = Err ValueError.
+  Proof. exact (from_token_needs_value V enc encb). Qed.
+  (* property assignment of an integer keeps the length of the target (or raises) *)
+  Theorem C15_assignment_keeps_length : forall (signed le : bool) (cur v : Z) (b : bits), 0 < cur ->
+    (set_plain signed cur v None = Ok b -> zlen b = cur) /\ (set_endian signed le cur v None = Ok b -> zlen b = cur).
+  Proof. exact (assign_keeps_length V enc encb enc_len encb_len). Qed.
+End C15_all_kinds.
+(* accepted integers are never wrapped or truncated: they read back unchanged (the little-endian kinds through the byte-swapped content) *)
+Theorem C15_accepted_integers_read_back : forall (signed : bool) (n v : Z), 0 < n -> int_in_range signed n v = true ->
+  ba2int (in_range_content signed n v) signed = Ok v /\
+  (n mod 8 = 0 -> (if signed then getintle else getuintle) (ByteswapProofs.swapbytes (in_range_content signed n v)) = Ok v).
+Proof. exact accepted_int_decodes. Qed.
+Print Assumptions C15_dtype_creation.
+Print Assumptions C15_total_classification.
+Print Assumptions C15_requested_length.
+Print Assumptions C15_keyword_route.
+Print Assumptions C15_keyword_bytes.
+Print Assumptions C15_token_route.
+Print Assumptions C15_token_needs_value.
+Print Assumptions C15_assignment_keeps_length.
+Print Assumptions C15_accepted_integers_read_back.
